@@ -1,173 +1,356 @@
 """C01 -- unfold / fold / vectorise / matricize are exact inverse index bijections.
-Correspondence: Model/Base.v (and the NumPy primitive model of Base/Tensor.v) vs tensorly/base.py, bit-exact.
-Predicates: documented layout formula, round trips, dtype/bytes preservation, on the implementation's outputs."""
+Correspondence: Model/Base.v (and the NumPy primitive model of Base/Tensor.v) vs tensorly/base.py and the backend's
+reshape / moveaxis / transpose dispatch, bit-exact, signed modes, size-0 / size-1 modes, invalid requests.
+Predicates (Python transcriptions of the theorems, evaluated on the implementation's outputs): documented layout formula,
+round trips, exact success domain, dtype/bytes preservation for every dtype and memory layout."""
 import itertools, random
 import numpy as np
 from harness import common as C
 
-HEADER = """From Coq Require Import List ZArith Bool. Import ListNotations.
+HEADER = """From Coq Require Import List ZArith Bool Uint63. Import ListNotations.
 From TLV Require Import Base.Tensor Corr.C01."""
 
+REFOLD = ("fold", "partial_fold", "vec_to_tensor", "partial_vec_to_tensor")
+PRIMS = ("moveaxis", "moveaxis_generic", "transpose", "reshape")
 
-def shapes(orders, dims):
-    for o in orders:
-        for s in itertools.product(dims, repeat=o):
-            yield tuple(s)
+
+# ----------------------------------------------------------------------------- literals
+def pack(vals):
+    """packed data literal: w bits per entry, 60//w entries per primitive integer, lowest entry first"""
+    vals = [int(x) for x in vals]
+    mx = max(vals) if vals else 0
+    assert min(vals or [0]) >= 0
+    w = 10 if mx < (1 << 10) else 20 if mx < (1 << 20) else 30
+    assert mx < (1 << 30)
+    per = 60 // w
+    out = []
+    for i in range(0, len(vals), per):
+        v = 0
+        for x in reversed(vals[i:i + per]):
+            v = (v << w) | x
+        out.append(v)
+    return w, out
+
+
+def int_list(xs):
+    return "[" + "; ".join(map(str, xs)) + "]%uint63" if xs else "(@nil int)"
 
 
 def arr_lit(a):
-    return C.ztensor(a.shape, a.ravel().tolist())
+    a = np.asarray(a)
+    n = a.size
+    flat = a.ravel()  # logical (row-major) order whatever the memory layout
+    if a.dtype.kind in "iu" and n <= 4096 and np.array_equal(flat, np.arange(n)):
+        return f"(IAr {C.nat_list(a.shape)})"
+    w, ints = pack(flat.tolist())
+    return f"(IPk {C.nat_list(a.shape)} {w}%nat {int_list(ints)})"
 
 
 def res_arr(r):
     st, v = r
     if st != "ok":
         return "Err"
-    v = np.asarray(v)
     return f"(Ok {arr_lit(v)})"
 
 
-def opt_list(x):
-    return "None" if x is None else f"(Some {C.nat_list(x)})"
+def zopt_list(x):
+    return "None" if x is None else f"(Some {C.z_list(x)})"
 
 
 def spec_lit(spec):
     return "[" + "; ".join("None" if s == -1 else f"Some {s}%nat" for s in spec) + "]"
 
 
+def oplit(d):
+    n = d[0]
+    if n == "tensor_to_vec": return "OVec"
+    if n == "vec_to_tensor": return f"(OUnvec {C.nat_list(d[1])})"
+    if n == "unfold": return f"(OUnfold {C.z(d[1])})"
+    if n == "fold": return f"(OFold {C.z(d[1])} {C.nat_list(d[2])})"
+    if n == "partial_unfold": return f"(OPUnfold {C.z(d[1])} {d[2]}%nat {d[3]}%nat {C.boolc(d[4])})"
+    if n == "partial_fold": return f"(OPFold {C.z(d[1])} {C.nat_list(d[2])} {d[3]}%nat {d[4]}%nat)"
+    if n == "partial_tensor_to_vec": return f"(OPVec {d[1]}%nat {d[2]}%nat)"
+    if n == "partial_vec_to_tensor": return f"(OPUnvec {C.nat_list(d[1])} {d[2]}%nat {d[3]}%nat)"
+    if n == "matricize":
+        rows = [d[1]] if isinstance(d[1], int) else list(d[1])
+        cols = None if d[2] is None else ([d[2]] if isinstance(d[2], int) else list(d[2]))
+        return f"(OMat {C.z_list(rows)} {zopt_list(cols)})"
+    if n == "moveaxis": return f"(OMove {C.z(d[1])} {C.z(d[2])})"
+    if n == "moveaxis_generic": return f"(OMoveG {C.z(d[1])} {C.z(d[2])})"
+    if n == "transpose": return f"(OTrans {C.nat_list(d[1])})"
+    if n == "reshape": return f"(OReshape {spec_lit(d[1])})"
+    raise KeyError(n)
+
+
+# ----------------------------------------------------------------------------- the calls
+def direct_call(d):
+    """the entry point named by the case, on its direct input"""
+    import tensorly as tl
+    from tensorly import base
+    n = d[0]
+    if n == "tensor_to_vec": return lambda a: tl.tensor_to_vec(a)
+    if n == "vec_to_tensor": return lambda a: tl.vec_to_tensor(a, d[1])
+    if n == "unfold": return lambda a: tl.unfold(a, d[1])
+    if n == "fold": return lambda a: tl.fold(a, d[1], d[2])
+    if n == "partial_unfold": return lambda a: tl.partial_unfold(a, d[1], d[2], d[3], d[4])
+    if n == "partial_fold": return lambda a: tl.partial_fold(a, d[1], d[2], d[3], d[4])
+    if n == "partial_tensor_to_vec": return lambda a: tl.partial_tensor_to_vec(a, d[1], d[2])
+    if n == "partial_vec_to_tensor": return lambda a: tl.partial_vec_to_tensor(a, d[1], d[2], d[3])
+    if n == "matricize":
+        rows = d[1] if isinstance(d[1], int) else list(d[1])
+        cols = None if d[2] is None else (d[2] if isinstance(d[2], int) else list(d[2]))
+        return lambda a: base.matricize(a, rows, cols)
+    if n == "moveaxis": return lambda a: tl.moveaxis(a, d[1], d[2])
+    if n == "moveaxis_generic":
+        from tensorly.backend.core import Backend
+        from tensorly.backend import BackendManager
+        return lambda a: Backend.moveaxis(BackendManager.current_backend(), a, d[1], d[2])
+    if n == "transpose": return lambda a: tl.transpose(a, list(d[1]))
+    if n == "reshape": return lambda a: tl.reshape(a, list(d[1]))
+    raise KeyError(n)
+
+
+def forward_call(d):
+    """for the refolding entry points: the unfolding that produces their input from the original tensor
+    (last component of the description = how the input was made)"""
+    import tensorly as tl
+    n = d[0]
+    if n == "vec_to_tensor": return lambda a: tl.tensor_to_vec(a)
+    if n == "fold": return lambda a: tl.unfold(a, d[3])
+    if n == "partial_fold": return lambda a: tl.partial_unfold(a, d[5], d[3], d[4], d[6])
+    if n == "partial_vec_to_tensor": return lambda a: tl.partial_tensor_to_vec(a, d[2], d[3])
+    return None
+
+
+def labelled(shape):
+    return np.arange(int(np.prod(shape, dtype=np.int64)), dtype=np.int64).reshape(shape)
+
+
+def make_case(d, shape):
+    """-> (direct input, original tensor, entry point) or None when the forward unfolding itself rejects"""
+    orig = labelled(shape)
+    fwd = forward_call(d)
+    if fwd is None:
+        return orig, orig, direct_call(d)
+    st, u = C.call_impl(fwd, orig)
+    if st != "ok":
+        return None
+    return u, orig, direct_call(d)
+
+
+def is_roundtrip(d, n):
+    """does the case re-fold with exactly the arguments of the unfolding that made its input?"""
+    k = d[0]
+    if k in ("vec_to_tensor", "partial_vec_to_tensor"):
+        return True
+    if k == "fold":
+        return -n <= d[1] < n and d[1] % n == d[3]
+    if k == "partial_fold":
+        return d[1] == d[5]
+    return False
+
+
+# ----------------------------------------------------------------------------- case generation
+def shapes(orders, dims):
+    for o in orders:
+        for s in itertools.product(dims, repeat=o):
+            yield tuple(s)
+
+
 def gen_cases(tier, rng):
-    """yields (coq op literal, python callable on array, input array builder key, descr)"""
+    """yields (description, shape of the original tensor)"""
     if tier == "quick":
-        shp = list(shapes([1, 2, 3, 4], [1, 2, 3]))
+        shp = [()] + list(shapes([1, 2, 3, 4], [1, 2, 3]))
     else:
-        shp = list(shapes([1, 2, 3, 4, 5], [1, 2, 3])) + list(shapes([6], [1, 2]))
+        shp = [()] + list(shapes([1, 2, 3, 4, 5], [1, 2, 3])) + list(shapes([6], [1, 2]))
         for _ in range(300):
             o = rng.randint(1, 5)
             shp.append(tuple(rng.randint(1, 6) for _ in range(o)))
     for s in shp:
         yield from gen_shape(s, tier, rng, light=False)
-    # high-order stream: orders 5..11 over mode sizes {1,2} (book-keeping on long mode lists)
+    # size-0 modes: every shape of order 1-3 over {0,1,2,3} with an empty mode, order 4 over {0,1,2} (sampled arguments)
+    for s in shapes([1, 2, 3], [0, 1, 2, 3]):
+        if 0 in s:
+            yield from gen_shape(s, tier, rng, light=False)
+    for s in shapes([4], [0, 1, 2]) if tier == "quick" else shapes([4], [0, 1, 2, 3]):
+        if 0 in s:
+            yield from gen_shape(s, tier, rng, light=True)
+    # high-order stream: orders 5..11 over mode sizes {1,2} (book-keeping on long mode lists); NOT exhaustive
     hi = []
     for o in range(5, 12):
         for _ in range(3 if tier == "quick" else 12):
             s = tuple(rng.choice([1, 2, 2]) for _ in range(o))
             if 2 <= int(np.prod(s)) <= 1024:
                 hi.append(s)
+    # order 5/6 with equal neighbouring sizes and size-1 modes in between (where a wrong axis order is invisible on smaller orders)
+    for _ in range(6 if tier == "quick" else 30):
+        o = rng.choice([5, 6])
+        s = tuple(rng.choice([1, 2, 2, 3]) for _ in range(o))
+        if int(np.prod(s)) <= 1024:
+            hi.append(s)
     for s in hi:
         yield from gen_shape(s, tier, rng, light=True)
 
 
 def gen_shape(s, tier, rng, light):
-    import tensorly as tl
-    from tensorly import base
     n = len(s)
     modes = list(range(n))
     some = (lambda xs, k: xs if not light or len(xs) <= k else rng.sample(xs, k))
-    yield ("OVec", lambda a: tl.tensor_to_vec(a), s, ("tensor_to_vec",))
-    yield (f"OUnvec {C.nat_list(s)}", (lambda a, s=s: tl.vec_to_tensor(a.reshape(-1), s)), ("flat", s), ("vec_to_tensor", s))
-    for m in some(list(range(n + 1)), 3):  # n itself is an invalid mode -> both sides must reject
-        yield (f"OUnfold {m}%nat", (lambda a, m=m: tl.unfold(a, m)), s, ("unfold", m))
-        if m < n:
-            yield (f"OFold {m}%nat {C.nat_list(s)}", (lambda a, m=m, s=s: tl.fold(tl.unfold(a, m), m, s)), ("unfolded", s, m), ("fold", m, s))
+    yield ("tensor_to_vec",), s
+    yield ("vec_to_tensor", s), s
+    # unfold / fold: every signed mode, one invalid mode at either end
+    for m in some(list(range(-n - 1, n + 1)), 5):
+        yield ("unfold", m), s
+        if -n <= m < n:
+            yield ("fold", m, s, m % n), s
+        elif n:
+            yield ("fold", m, s, 0), s                       # invalid mode on a well-formed unfolding: both sides reject
+    if n >= 2:
+        a_, b_ = rng.sample(modes, 2)
+        yield ("fold", a_, s, b_), s                         # folding along another mode than the unfolding: compared with the model only
     # partial variants
-    combos = []
-    for sb in range(0, n + 1):
-        for se in range(0, n + 1 - sb):
-            combos.append((sb, se))
+    combos = [(sb, se) for sb in range(0, n + 1) for se in range(0, n + 1 - sb)]
     for sb, se in some(combos, 4):
-        for m in some(list(range(0, n - sb - se + (1 if tier == "thorough" else 0))), 2):
+        top = n - sb + 1 if (n <= 3 or tier == "thorough") else n - sb - se + 1
+        ms = list(range(0, max(top, 0)))
+        neg = sorted({-1, -sb - 1, -n - sb - 1} - {0})
+        for m in some(ms, 2) + (neg if n <= 3 and not light else [rng.choice(neg)]):
             for rav in (False, True):
-                yield (f"OPUnfold {m}%nat {sb}%nat {se}%nat {C.boolc(rav)}",
-                       (lambda a, m=m, sb=sb, se=se, rav=rav: tl.partial_unfold(a, m, sb, se, rav)), s, ("partial_unfold", m, sb, se, rav))
-            if m + sb + se < n:
-                yield (f"OPFold {m}%nat {C.nat_list(s)} {sb}%nat {se}%nat",
-                       (lambda a, m=m, sb=sb, se=se, s=s: tl.partial_fold(tl.partial_unfold(a, m, sb, se, False), m, s, sb, se)),
-                       ("punfolded", s, m, sb, se), ("partial_fold", m, s, sb, se))
-        if sb + se < n:
-            yield (f"OPVec {sb}%nat {se}%nat", (lambda a, sb=sb, se=se: tl.partial_tensor_to_vec(a, sb, se)), s, ("partial_tensor_to_vec", sb, se))
-            yield (f"OPUnvec {C.nat_list(s)} {sb}%nat {se}%nat",
-                   (lambda a, sb=sb, se=se, s=s: tl.partial_vec_to_tensor(tl.partial_tensor_to_vec(a, sb, se), s, sb, se)),
-                   ("pvec", s, sb, se), ("partial_vec_to_tensor", s, sb, se))
+                yield ("partial_unfold", m, sb, se, rav), s
+                if 0 <= m and m + sb + se < n:
+                    yield ("partial_fold", m, s, sb, se, m, rav), s
+            if m < 0 or m + sb + se >= n:
+                yield ("partial_fold", m, s, sb, se, m, False), s    # made only when the unfolding succeeded
+        if n and sb + se < n:
+            yield ("partial_fold", n, s, sb, se, 0, False), s        # invalid mode
+        if sb + se <= n:
+            yield ("partial_tensor_to_vec", sb, se), s
+            yield ("partial_vec_to_tensor", s, sb, se), s
+    if n:
+        yield ("partial_unfold", 0, n, 0, False), s                 # skip_begin = ndim
+        yield ("partial_unfold", 0, 0, n + 1, True), s              # skip_end > ndim
     # matricize: all ordered splits for small orders, sampled otherwise
     splits = []
     if not light and (n <= 3 or (tier == "thorough" and n <= 4)):
         for k in range(0, n + 1):
             for rows in itertools.permutations(modes, k):
                 rest = [i for i in modes if i not in rows]
-                splits.append((list(rows), None))
+                splits.append((tuple(rows), None))
                 for cols in itertools.permutations(rest):
-                    splits.append((list(rows), list(cols)))
+                    splits.append((tuple(rows), tuple(cols)))
     else:
         for k in some(list(range(0, n + 1)), 4):     # leading blocks of modes as rows, default and explicit columns
-            splits.append((modes[:k], None)); splits.append((modes[:k], modes[k:]))
+            splits.append((tuple(modes[:k]), None)); splits.append((tuple(modes[:k]), tuple(modes[k:])))
         for _ in range(4 if light else 6):
             p = modes[:]; rng.shuffle(p); k = rng.randint(0, n)
-            splits.append((p[:k], p[k:])); splits.append((p[:k], None))
-    # invalid requests: repeated / missing / out-of-range modes
-    splits += [([0, 0], None), ([0], [0]), ([n], None)]
+            splits.append((tuple(p[:k]), tuple(p[k:]))); splits.append((tuple(p[:k]), None))
+    # invalid requests: repeated / missing / out-of-range / negative modes; a bare int as row_modes / column_modes
+    splits += [((0, 0), None), ((0,), (0,)), ((n,), None), ((-1,), None), ((-1,), tuple(modes[:-1]))]
+    if n >= 1:
+        splits += [(n - 1, None), (0, tuple(modes[1:]))]
+    if n == 2:
+        splits += [(1, 0), (0, 0)]
     if n >= 2:
-        splits.append(([0], []))
+        splits.append(((0,), ()))
     for rows, cols in splits:
-        yield (f"OMat {C.nat_list(rows)} {opt_list(cols)}", (lambda a, rows=rows, cols=cols: base.matricize(a, rows, cols)), s, ("matricize", tuple(rows), None if cols is None else tuple(cols)))
-    # NumPy primitives as used through the backend
-    pairs = [(a_, b_) for a_ in range(n) for b_ in range(n)]
-    for a_, b_ in some(pairs, 4):
-        yield (f"OMove {a_}%nat {b_}%nat", (lambda a, a_=a_, b_=b_: tl.moveaxis(a, a_, b_)), s, ("moveaxis", a_, b_))
+        yield ("matricize", rows, cols), s
+    # the backend primitives: NumPy's moveaxis as dispatched, the generic Backend.moveaxis, transpose, reshape
+    pairs = [(a_, b_) for a_ in range(n) for b_ in range(n)]                 # every valid non-negative pair
+    signed = [(a_, b_) for a_ in range(-n - 1, n + 1) for b_ in range(-n - 1, n + 2) if not (0 <= a_ < n and 0 <= b_ < n)]
+    pairs = some(pairs, 4) + (signed if n <= 2 and not light else rng.sample(signed, min(len(signed), 6)))
+    for a_, b_ in pairs:
+        if b_ < n:      # (a destination >= ndim is rejected by NumPy but clamped by the generic fallback: not part of the property)
+            yield ("moveaxis", a_, b_), s
+        yield ("moveaxis_generic", a_, b_), s
     perms = list(itertools.permutations(modes)) if n <= 3 else [tuple(rng.sample(modes, n)) for _ in range(2 if light else 4)]
     for p in perms:
-        yield (f"OTrans {C.nat_list(p)}", (lambda a, p=p: tl.transpose(a, list(p))), s, ("transpose", p))
-    tot = int(np.prod(s))
-    for spec in ([-1], [tot], [1, -1], [-1, 1], [s[0], -1], [-1, s[-1]], [2, -1], [-1, -1], [tot + 1]):
-        yield (f"OReshape {spec_lit(spec)}", (lambda a, spec=spec: tl.reshape(a, spec)), s, ("reshape", tuple(spec)))
+        yield ("transpose", p), s
+    if n >= 2:
+        yield ("transpose", tuple(modes[:-1])), s
+        yield ("transpose", tuple([0] + modes[:-1])), s
+    tot = int(np.prod(s, dtype=np.int64))
+    sp = [[-1], [tot], [1, -1], [-1, 1], [2, -1], [-1, -1], [tot + 1], [0, -1]]
+    if n:
+        sp += [[s[0], -1], [-1, s[-1]]]
+    for spec in sp:
+        yield ("reshape", tuple(spec)), s
 
 
-def build_input(key, impl_cache):
-    """input array (int64, distinct entries 0..n-1 of the ORIGINAL tensor) for a case"""
-    import tensorly as tl
-    if isinstance(key, tuple) and key and isinstance(key[0], str):
-        kind = key[0]
-        s = key[1]
-        a = np.arange(int(np.prod(s)), dtype=np.int64).reshape(s)
-        if kind == "flat":
-            return a.reshape(-1), a
-        if kind == "unfolded":
-            return tl.unfold(a, key[2]), a
-        if kind == "punfolded":
-            return tl.partial_unfold(a, key[2], key[3], key[4], False), a
-        if kind == "pvec":
-            return tl.partial_tensor_to_vec(a, key[2], key[3]), a
-    a = np.arange(int(np.prod(key)), dtype=np.int64).reshape(key)
-    return a, a
+# ----------------------------------------------------------------------------- predicates
+def domain_ok(d, s):
+    """True: the theorems say the request succeeds; False: they say it is rejected; None: outside the documented domain
+    (the outcome is only compared with the model).  Transcribes C01_unfold_ok_iff, C01_partial_unfold_ok_iff,
+    C01_matricize_ok_iff and the round-trip theorems."""
+    n = len(s)
+    k = d[0]
+    if k in ("tensor_to_vec",):
+        return True
+    if k == "unfold":
+        m = d[1]
+        if not (-n <= m < n):
+            return False
+        return True if s[m] != 0 else None   # an empty mode: NumPy's reshape(-1) rejects it (theorem about the model; compared with the model only)
+    if k in ("partial_unfold", "partial_tensor_to_vec"):
+        if k == "partial_unfold":
+            m, sb, se, rav = d[1:]
+        else:
+            m, (sb, se), rav = 0, d[1:], True
+        if m < 0:
+            return None
+        if not (m + sb < n and se <= n):
+            return False
+        if m + sb + se >= n:
+            return None
+        known = [s[i] for i in range(sb)] + ([] if rav else [s[m + sb]]) + [s[n - i] for i in range(se, 0, -1)]
+        return True if all(x != 0 for x in known) else None   # empty kept mode: as for unfold
+    if k == "matricize":
+        rows = [d[1]] if isinstance(d[1], int) else list(d[1])
+        cols = [i for i in range(n) if i not in rows] if d[2] is None else ([d[2]] if isinstance(d[2], int) else list(d[2]))
+        return sorted(rows + cols) == list(range(n))
+    if k in REFOLD:
+        return True if is_roundtrip(d, n) else None
+    return None
 
 
-def spec_predicate(descr, orig, out):
+def spec_predicate(d, orig, out):
     """Property predicate on the implementation's output (independent of the Coq model):
-    documented layout + exact round trip.  orig: the original tensor; out: ('ok', value)|... """
-    name = descr[0]
+    exact success domain, documented layout, exact round trip.  orig: the original tensor; out: ('ok', value)|... """
+    name = d[0]
     st, v = out
     s = orig.shape
     n = len(s)
-    if name in ("fold", "partial_fold", "vec_to_tensor", "partial_vec_to_tensor"):
-        # these cases are compositions  refold(unfold(orig)) : must return orig bit for bit
-        if st != "ok":
-            return f"{name}: round trip raised {v}"
-        if v.shape != orig.shape or v.dtype != orig.dtype or v.tobytes() != np.ascontiguousarray(orig).tobytes():
-            return f"{name}: round trip is not the identity"
-        return None
+    dom = domain_ok(d, s)
+    if st == "crash":
+        return f"{name}: crashed: {v}"
+    if dom is True and st != "ok":
+        return f"{name}{d[1:]}: a request inside the documented domain was rejected: {v}"
+    if dom is False and st == "ok":
+        return f"{name}{d[1:]}: a request outside the domain was accepted"
     if st != "ok":
-        return None  # rejection of invalid requests is compared against the model, not judged here
+        return None
+    if not isinstance(v, np.ndarray):
+        return f"{name}: result is not an ndarray but {type(v).__name__}"
     if v.dtype != orig.dtype:
         return f"{name}: dtype changed {orig.dtype} -> {v.dtype}"
-    if v.size != orig.size or sorted(v.ravel().tolist()) != sorted(orig.ravel().tolist()):
+    if name in REFOLD:
+        if not is_roundtrip(d, n):
+            return None
+        if v.shape != orig.shape or v.tobytes() != np.ascontiguousarray(orig).tobytes():
+            return f"{name}: round trip is not the identity"
+        return None
+    if name in PRIMS:
+        return None
+    if v.size != orig.size or sorted(v.ravel().tolist()) != list(range(orig.size)):
         return f"{name}: entries duplicated or dropped"
+    if dom is None:
+        return None
     if name == "tensor_to_vec":
-        exp = [orig[idx] for idx in np.ndindex(*s)]
-        if v.shape != (orig.size,) or v.tolist() != exp:
+        if v.shape != (orig.size,) or v.tolist() != list(range(orig.size)):
             return "tensor_to_vec: not the row-major vectorisation"
     elif name == "unfold":
-        m = descr[1]
-        rest = [d for k, d in enumerate(s) if k != m]
-        if v.shape != (s[m], int(np.prod(rest))):
+        m = d[1] % n
+        rest = [x for k, x in enumerate(s) if k != m]
+        if v.shape != (s[m], int(np.prod(rest, dtype=np.int64))):
             return f"unfold: shape {v.shape}"
         for idx in np.ndindex(*s):
             r = [i for k, i in enumerate(idx) if k != m]
@@ -176,35 +359,32 @@ def spec_predicate(descr, orig, out):
                 return f"unfold: entry {idx} at wrong place"
     elif name in ("partial_unfold", "partial_tensor_to_vec"):
         if name == "partial_unfold":
-            m, sb, se, rav = descr[1:]
+            m, sb, se, rav = d[1:]
         else:
-            m, (sb, se), rav = 0, descr[1:], True
-        if m + sb + se >= n:
-            return None  # outside the documented domain; only compared with the model
+            m, (sb, se), rav = 0, d[1:], True
         mid = list(range(sb, n - se))
-        midshape = [s[k] for k in mid]
         rest = [k for k in mid if k != m + sb]
         restshape = [s[k] for k in rest]
+        lead_s = [s[k] for k in range(sb)]; trail_s = [s[k] for k in range(n - se, n)]
+        exp_shape = lead_s + ([int(np.prod([s[k] for k in mid], dtype=np.int64))] if rav else [s[m + sb], int(np.prod(restshape, dtype=np.int64))]) + trail_s
+        if list(v.shape) != exp_shape:
+            return f"{name}{d[1:]}: shape {v.shape} instead of {tuple(exp_shape)}"
         for idx in np.ndindex(*s):
             lead = list(idx[:sb]); trail = list(idx[n - se:]) if se else []
+            order = [m + sb] + rest
             if rav:
-                order = [m + sb] + rest
                 pos = int(np.ravel_multi_index([idx[k] for k in order], [s[k] for k in order])) if order else 0
                 o = tuple(lead + [pos] + trail)
             else:
                 col = int(np.ravel_multi_index([idx[k] for k in rest], restshape)) if rest else 0
                 o = tuple(lead + [idx[m + sb], col] + trail)
-            try:
-                if v[o] != orig[idx]:
-                    return f"{name}{descr[1:]}: entry {idx} at wrong place"
-            except IndexError:
-                return f"{name}{descr[1:]}: shape {v.shape} does not fit the documented layout"
+            if v[o] != orig[idx]:
+                return f"{name}{d[1:]}: entry {idx} at wrong place"
     elif name == "matricize":
-        rows, cols = descr[1], descr[2]
-        if cols is None:
-            cols = tuple(i for i in range(n) if i not in rows)
+        rows = [d[1]] if isinstance(d[1], int) else list(d[1])
+        cols = [i for i in range(n) if i not in rows] if d[2] is None else ([d[2]] if isinstance(d[2], int) else list(d[2]))
         rs = [s[k] for k in rows]; cs = [s[k] for k in cols]
-        if v.shape != (int(np.prod(rs)), int(np.prod(cs))):
+        if v.shape != (int(np.prod(rs, dtype=np.int64)), int(np.prod(cs, dtype=np.int64))):
             return f"matricize: shape {v.shape}"
         for idx in np.ndindex(*s):
             r = int(np.ravel_multi_index([idx[k] for k in rows], rs)) if rows else 0
@@ -214,55 +394,109 @@ def spec_predicate(descr, orig, out):
     return None
 
 
-DTYPES_Q = [np.float32, np.complex128, np.bool_]
-DTYPES_T = [np.int8, np.int16, np.int32, np.uint8, np.float16, np.float32, np.float64, np.complex64, np.complex128, np.bool_, object]
+DTYPES = [np.bool_, np.int8, np.int16, np.int32, np.uint8, np.uint64, np.float16, np.float32, np.float64, np.complex64, np.complex128, object]
+LAYOUTS = ["C", "F", "strided", "neg"]
+_POOL = {}
 
 
-def dtype_predicate(fn, a_int, out_int, dtype, rng, layout="C"):
+def value_pool(dtype, n):
+    """n values of the dtype whose byte patterns are pairwise as different as the dtype allows (NaN, -0.0, extremes included)"""
+    key = np.dtype(dtype).str if dtype is not object else "O"
+    have = _POOL.get(key)
+    if have is not None and len(have) >= n:
+        return have[:n]
+    size = max(n, 4096)
+    r = random.Random(12345)
+    if dtype is object:
+        vals = np.empty(size, dtype=object)
+        for i in range(size):
+            vals[i] = ("s%d" % i) if i % 3 == 1 else (float(i) + 0.5 if i % 3 == 2 else 1000 + i)
+    else:
+        kind = np.dtype(dtype).kind
+        if kind == "b":
+            vals = np.array([r.random() < 0.5 for _ in range(size)], dtype=dtype)
+        elif kind == "c":
+            vals = np.array([complex(r.uniform(-1, 1), r.uniform(-1, 1)) for _ in range(size)], dtype=dtype)
+            vals[1] = complex(np.nan, -0.0)
+        elif kind == "f":
+            vals = np.array([r.uniform(-1e3, 1e3) for _ in range(size)], dtype=dtype)
+            vals[1] = np.nan; vals[2] = -0.0; vals[3] = np.inf
+        else:
+            info = np.iinfo(dtype)
+            vals = np.array([r.randint(info.min, info.max) for _ in range(size)], dtype=dtype)
+            vals[1] = info.min; vals[2] = info.max
+    _POOL[key] = vals
+    return vals[:n]
+
+
+def relayout(a, layout):
+    """a view / copy with the same logical content in another memory layout"""
+    if a.ndim == 0 or layout == "C":
+        return a
+    if layout == "F":
+        return np.asfortranarray(a)
+    if layout == "strided":
+        big = np.empty(tuple(2 * x for x in a.shape), dtype=a.dtype)
+        big[...] = a.ravel()[0] if a.size else 0
+        view = big[tuple(slice(1, None, 2) for _ in a.shape)]
+        view[...] = a
+        return view
+    if layout == "neg":
+        return np.flip(np.flip(a).copy())          # negative strides along every axis
+    raise KeyError(layout)
+
+
+def dtype_predicate(fn, a_int, out_int, dtype, layout="C"):
     """re-run the same call on another dtype / memory layout: the output must be the same
     re-arrangement (positions taken from the int64 run) of the same bytes, dtype unchanged."""
     n = a_int.size
-    if dtype is object:
-        vals = np.empty(n, dtype=object)
-        for i in range(n):
-            vals[i] = ("s%d" % i) if i % 2 else i
-    elif np.dtype(dtype).kind == "b":
-        vals = np.array([rng.random() < 0.5 for _ in range(n)], dtype=dtype)
-    elif np.dtype(dtype).kind == "c":
-        vals = np.array([complex(rng.uniform(-1, 1), rng.uniform(-1, 1)) for _ in range(n)], dtype=dtype)
-    elif np.dtype(dtype).kind == "f":
-        vals = np.array([rng.uniform(-1e3, 1e3) for _ in range(n)], dtype=dtype)
-        if n:
-            vals[rng.randrange(n)] = np.nan  # NaN payloads must travel untouched as well
-    else:
-        info = np.iinfo(dtype)
-        vals = np.array([rng.randint(info.min, info.max) for _ in range(n)], dtype=dtype)
-    a = vals[a_int.ravel()].reshape(a_int.shape)  # the entry labelled p carries vals[p]
-    if layout == "F":
-        a = np.asfortranarray(a)
-    elif layout == "strided" and a.ndim >= 1:
-        big = np.zeros(tuple(2 * d for d in a.shape), dtype=a.dtype) if dtype is not object else np.empty(tuple(2 * d for d in a.shape), dtype=object)
-        view = big[tuple(slice(None, None, 2) for _ in a.shape)]
-        view[...] = a
-        a = view
-    elif layout == "neg" and a.ndim >= 1:
-        a = a[::-1][::-1] if False else np.flip(np.flip(a, 0).copy(), 0)  # negative stride view of equal content
+    lab = a_int.ravel()
+    vals = value_pool(dtype, int(lab.max()) + 1 if n else 0)
+    a = vals[lab].reshape(a_int.shape) if n else np.empty(a_int.shape, dtype=dtype)   # the entry labelled p carries vals[p]
+    a = relayout(a, layout)
     st, v = C.call_impl(fn, a)
     if st != "ok":
         return f"raised on dtype {np.dtype(dtype)} layout {layout}: {v}"
-    if v.dtype != a.dtype:
+    if not isinstance(v, np.ndarray):
+        return f"result is not an ndarray but {type(v).__name__}"
+    if v.dtype != a.dtype or v.dtype.str != a.dtype.str:
         return f"dtype changed {a.dtype} -> {v.dtype}"
     if v.shape != out_int.shape:
         return f"shape differs between dtypes: {v.shape} vs {out_int.shape}"
-    exp = vals[out_int.ravel()]
+    exp = vals[out_int.ravel()] if n else np.empty(0, dtype=dtype)
     got = v.ravel()
     if dtype is object:
-        same = all(x is y or x == y for x, y in zip(got, exp))
+        same = all(x is y or (type(x) is type(y) and x == y) for x, y in zip(got, exp))
     else:
         same = np.ascontiguousarray(got).tobytes() == np.ascontiguousarray(exp).tobytes()
     if not same:
         return f"not the same re-arrangement of bytes for dtype {np.dtype(dtype)} layout {layout}"
     return None
+
+
+def entry_point(d):
+    return {"moveaxis": "tensorly.moveaxis", "transpose": "tensorly.transpose", "reshape": "tensorly.reshape",
+            "moveaxis_generic": "tensorly.backend.core.Backend.moveaxis"}.get(d[0], f"tensorly.base.{d[0]}")
+
+
+def judge(d, shape, combos):
+    """run one case against the implementation; -> (case literal parts or None, list of (message, predicate, extra inputs))"""
+    made = make_case(d, shape)
+    if made is None:
+        return None, []
+    a_in, orig, prim = made
+    out = C.call_impl(prim, a_in)
+    msgs = []
+    msg = spec_predicate(d, orig, out)
+    if msg:
+        msgs.append((msg, "C01_layout_roundtrip", {"dtype": "int64", "layout": "C"}))
+    elif out[0] == "ok":
+        for dt, lay in combos:
+            m2 = dtype_predicate(prim, a_in, np.asarray(out[1]), dt, lay)
+            if m2:
+                msgs.append((m2, "C01_dtype_bytes", {"dtype": "object" if dt is object else str(np.dtype(dt)), "layout": lay}))
+                break
+    return (a_in, orig, out), msgs
 
 
 def run(chk):
@@ -271,71 +505,84 @@ def run(chk):
     C.reset_backends()
     cases, meta = [], []
     tier = chk.tier
-    dts = DTYPES_Q if tier == "quick" else DTYPES_T
-    layouts = ["C"] if tier == "quick" else ["C", "F", "strided", "neg"]
-    for cid, (oplit, fn, key, descr) in enumerate(gen_cases(tier, rng)):
-        a_in, orig = build_input(key, None)
-        # the Coq case is the *primitive* call on its direct input
-        prim = direct_call(descr)
-        out = C.call_impl(prim, a_in)
-        cases.append(f"({cid}%nat, {oplit}, {arr_lit(a_in)}, {res_arr(out)})")
-        meta.append((descr, orig.shape))
-        nontrivial = orig.size > 1
-        chk.count(key=(descr[0], orig.shape, descr[1:]), nontrivial=nontrivial)
-        chk.hist("function", descr[0]); chk.hist("order", len(orig.shape))
-        chk.hist("outcome", out[0])
-        if cid % 997 == 0:
-            chk.sample({"call": list(map(str, descr)), "input_shape": list(orig.shape), "outcome": out[0],
+    rot = {}
+    all_combos = [(dt, lay) for dt in DTYPES for lay in LAYOUTS]
+    seen_combo = set()
+    corpus = load_corpus()
+    stream = itertools.chain(((tuple_deep(c["descr"]), tuple(c["shape"])) for c in corpus), gen_cases(tier, rng))
+    for d, shape in stream:
+        # dtype x layout: quick rotates through all 48 combinations per function (one per case), thorough runs
+        # every dtype on the C layout plus every layout on a rotating dtype
+        k = rot.get(d[0], 0); rot[d[0]] = k + 1
+        if tier == "quick":
+            combos = [all_combos[(k * 7) % len(all_combos)]]
+        else:
+            combos = [(dt, "C") for dt in DTYPES] + [(DTYPES[k % len(DTYPES)], lay) for lay in LAYOUTS[1:]]
+        res, msgs = judge(d, shape, combos)
+        if res is None:
+            chk.hist("outcome", "no-input(unfolding rejected)")
+            continue
+        a_in, orig, out = res
+        cid = len(cases)
+        cases.append(f"({cid}%uint63, {oplit(d)}, {arr_lit(a_in)}, {res_arr(out)})")
+        meta.append((d, shape))
+        chk.count(key=(d, shape), nontrivial=orig.size > 1 or out[0] != "ok")
+        chk.hist("function", d[0]); chk.hist("order", len(shape)); chk.hist("outcome", out[0])
+        if 0 in shape:
+            chk.hist("size0", d[0] + ":" + out[0])
+        if out[0] == "ok":
+            chk.cov["evaluations"] += len(combos)
+            for c_ in combos:
+                seen_combo.add((d[0], "object" if c_[0] is object else np.dtype(c_[0]).name, c_[1]))
+        if cid % 2999 == 0:
+            chk.sample({"call": repr(d), "input_shape": list(shape), "outcome": out[0],
                         "output": (np.asarray(out[1]).tolist() if out[0] == "ok" and np.asarray(out[1]).size <= 24 else str(out[1])[:80])})
-        # property predicate on the implementation (composition for the refold cases)
-        full = C.call_impl(fn, orig if not (isinstance(key, tuple) and key and key[0] == "flat") else orig)
-        msg = spec_predicate(descr, orig, full if descr[0] in ("fold", "partial_fold", "vec_to_tensor", "partial_vec_to_tensor") else out)
-        if msg:
-            chk.finding(f"tensorly.base.{descr[0]}", {"shape": list(orig.shape), "args": list(map(str, descr[1:])), "dtype": "int64"}, msg, "C01_layout_roundtrip")
-        elif out[0] == "ok" and descr[0] not in ("moveaxis", "transpose", "reshape") and (tier == "thorough" or cid % 3 == 0):
-            for dt in dts:
-                for lay in layouts:
-                    if descr[0] in ("fold", "partial_fold", "vec_to_tensor", "partial_vec_to_tensor") and lay != "C":
-                        continue
-                    m2 = dtype_predicate(prim, a_in, np.asarray(out[1]), dt, rng, lay)
-                    chk.cov["evaluations"] += 1
-                    if m2:
-                        chk.finding(f"tensorly.base.{descr[0]}", {"shape": list(orig.shape), "args": list(map(str, descr[1:])), "dtype": str(np.dtype(dt)), "layout": lay}, m2, "C01_dtype_bytes")
-    failing, n_eval, broken = C.run_case_shards("C01", HEADER, "case", cases, shard=400)
+        for msg, pred, extra in msgs:
+            inputs = {"shape": list(shape), "descr": repr(d)}
+            inputs.update(extra)
+            chk.finding(entry_point(d), inputs, msg, pred)
+    failing, n_eval, broken = C.run_case_shards("C01", HEADER, "case", cases, shard=800)
     chk.checker_cmds.append("coqc (vm_compute) on generated build/cases/C01/*.v: Corr.C01.failing")
     chk.cov["traces_validated_against_impl"] = n_eval
     chk.cov["exhaustive"] = True
-    chk.cov["rule"] = ("every tensor shape of order 1-4 over mode sizes {1,2,3} (thorough: order<=5, order 6 over {1,2}, +300 random shapes; plus a sampled high-order stream of orders 5-11 over mode sizes {1,2}, which is NOT exhaustive) x every function of tensorly/base.py "
-                       "x every mode (+1 invalid) x every (skip_begin, skip_end, ravel) split x every ordered row/column split of matricize (order<=3; sampled above) "
-                       "+ invalid requests + the NumPy primitives moveaxis/transpose/reshape; entries are the distinct integers 0..n-1 so one run decides the shape for all values; "
-                       "a case is non-trivial if the tensor has more than one entry; distinct key = (function, shape, arguments)")
+    chk.cov["dtype_layout_combinations_per_function"] = {f: sum(1 for x in seen_combo if x[0] == f) for f in sorted({x[0] for x in seen_combo})}
+    chk.cov["rule"] = ("every tensor shape of order 0-4 over mode sizes {1,2,3}, plus every shape of order 1-3 over {0,1,2,3} that has an empty mode "
+                       "(thorough: order<=5, order 6 over {1,2}, +300 random shapes; order-4 shapes with an empty mode, orders 5-11 over {1,2} and orders 5-6 over {1,2,3} "
+                       "are SAMPLED, not exhaustive) x every function of tensorly/base.py x every signed mode -n..n-1 (+1 invalid at either end) x every "
+                       "(skip_begin, skip_end, ravel) split x every ordered row/column split of matricize (order<=3; sampled above) + invalid requests "
+                       "+ the backend primitives moveaxis (NumPy and the generic Backend.moveaxis) / transpose / reshape; entries are the distinct integers 0..n-1 so "
+                       "one run decides the shape for all values; each successful case is re-run on other dtypes / memory layouts (C, F, strided, negative strides) and must "
+                       "give the same re-arrangement of the same bytes; a case is non-trivial if the tensor has more than one entry or the request is rejected; "
+                       "distinct key = (function, arguments, shape)")
     for b in broken:
         chk.broken.append({"what": "correspondence corr:C01 shard not evaluated", "detail": b})
     for i in sorted(failing):
-        descr, shape = meta[i]
-        chk.disagreement("corr:C01 (Model/Base.v vs tensorly/base.py)", {"call": list(map(str, descr)), "shape": list(shape)})
-    chk.assumptions = ["NumPy reshape/moveaxis/transpose on the generated inputs behave as modelled in Base/Tensor.v (checked on this run's primitive cases)",
-                       "size-0 modes are outside the model (theorems require a non-empty index space)"]
+        d, shape = meta[i]
+        chk.disagreement("corr:C01 (Model/Base.v vs tensorly/base.py)", {"descr": repr(d), "shape": list(shape)})
+    chk.assumptions = ["NumPy reshape/moveaxis/transpose behave as modelled in Base/Tensor.v (checked on this run's primitive cases and, through the "
+                       "dtype/layout re-runs, on F-contiguous, strided and negative-stride views)",
+                       "tensor data are compared as lists of labels / bytes of the logical row-major order; memory layout of the result is not part of the property"]
+    chk.trusted = ["the packed-literal decoder Corr.C01.unpack (a decoding error shows up as a disagreement, never as silent agreement on different data, "
+                   "because both sides are decoded from literals the harness printed from the implementation's arrays)"]
     return chk.finish()
 
 
-def direct_call(descr):
-    import tensorly as tl
-    from tensorly import base
-    n = descr[0]
-    if n == "tensor_to_vec": return lambda a: tl.tensor_to_vec(a)
-    if n == "vec_to_tensor": return lambda a: tl.vec_to_tensor(a, descr[1])
-    if n == "unfold": return lambda a: tl.unfold(a, descr[1])
-    if n == "fold": return lambda a: tl.fold(a, descr[1], descr[2])
-    if n == "partial_unfold": return lambda a: tl.partial_unfold(a, descr[1], descr[2], descr[3], descr[4])
-    if n == "partial_fold": return lambda a: tl.partial_fold(a, descr[1], descr[2], descr[3], descr[4])
-    if n == "partial_tensor_to_vec": return lambda a: tl.partial_tensor_to_vec(a, descr[1], descr[2])
-    if n == "partial_vec_to_tensor": return lambda a: tl.partial_vec_to_tensor(a, descr[1], descr[2], descr[3])
-    if n == "matricize": return lambda a: base.matricize(a, list(descr[1]), None if descr[2] is None else list(descr[2]))
-    if n == "moveaxis": return lambda a: tl.moveaxis(a, descr[1], descr[2])
-    if n == "transpose": return lambda a: tl.transpose(a, list(descr[1]))
-    if n == "reshape": return lambda a: tl.reshape(a, list(descr[1]))
-    raise KeyError(n)
+def tuple_deep(x):
+    return tuple(tuple_deep(y) for y in x) if isinstance(x, (list, tuple)) else x
+
+
+def load_corpus():
+    import glob, json, os
+    out = []
+    for fn in sorted(glob.glob(os.path.join(os.path.dirname(__file__), "..", "..", "corpus", "C01", "*.json"))):
+        try:
+            with open(fn) as f:
+                j = json.load(f)
+            for c in (j if isinstance(j, list) else [j]):
+                out.append(c)
+        except Exception:
+            pass
+    return out
 
 
 def replay(payload):
@@ -345,22 +592,14 @@ def replay(payload):
         return 1
     import ast
     inp = payload["inputs"]
-    name = payload["entry_point"].split(".")[-1]
-    descr = (name,) + tuple(ast.literal_eval(x) if x not in ("None",) else None for x in inp["args"])
+    C.reset_backends()
+    d = tuple_deep(ast.literal_eval(inp["descr"]))
     shape = tuple(inp["shape"])
-    orig = np.arange(int(np.prod(shape)), dtype=np.int64).reshape(shape)
-    rng = random.Random(0)
-    for (oplit, fn, key, d2) in gen_cases("thorough", rng):
-        if tuple(map(str, d2)) == tuple(map(str, descr)) and build_input(key, None)[1].shape == shape:
-            a_in, orig = build_input(key, None)
-            prim = direct_call(d2)
-            out = C.call_impl(prim, a_in)
-            full = C.call_impl(fn, orig)
-            msg = spec_predicate(d2, orig, full if d2[0] in ("fold", "partial_fold", "vec_to_tensor", "partial_vec_to_tensor") else out)
-            if not msg and out[0] == "ok" and inp.get("dtype", "int64") != "int64":
-                dt = object if inp["dtype"] == "object" else np.dtype(inp["dtype"]).type
-                msg = dtype_predicate(prim, a_in, np.asarray(out[1]), dt, rng, inp.get("layout", "C"))
-            print("replay:", d2, shape, "->", msg or "holds")
-            return 1 if msg else 0
-    print("replay: case not found in the generator")
-    return 1
+    dtn = inp.get("dtype", "int64")
+    combos = [] if dtn == "int64" else [(object if dtn == "object" else np.dtype(dtn).type, inp.get("layout", "C"))]
+    res, msgs = judge(d, shape, combos)
+    if res is None:
+        print("replay:", d, shape, "-> the unfolding that makes the input is rejected")
+        return 1
+    print("replay:", d, shape, "->", msgs[0][0] if msgs else "holds")
+    return 1 if msgs else 0
